@@ -125,6 +125,7 @@ package interpreter
 //@   pure
 //@   ensures[C05.num_eq] (= result (= (bigval (. n val)) (bigval (. o val))))
 //@ func interpreter.(*scriptNumber).Bytes
+//@   fresh result
 //@   loop 0 invariant (and (not (nil? cpy)) (>= (bigval cpy) 0) (or (>= (len result) 1) (> (bigval cpy) 0)))
 //@   loop 0 decreases (bigval cpy)
 //@ func interpreter.(*stack).PushInt
@@ -143,6 +144,7 @@ package interpreter
 //@   ensures[depth] (= result (len (. s stk)))
 
 //@ func interpreter.opcodeNum2bin
+//@   loop 0 invariant (or (nil? b) (fresh b))
 //@   loop 0 decreases (- (bigval (. n val)) (len b))
 
 //@ func interpreter.createThread
@@ -171,3 +173,17 @@ package interpreter
 //@ func interpreter.(*DefaultOpcodeParser).Parse
 //@   loop 0 invariant (<= 0 i)
 //@   loop 0 decreases (- (len script) i)
+
+// ---- effects on the caller's transaction (C08) ----
+// the only stores into the transaction passed to Execute are the two fields thread.apply records on the checked input
+//@ func interpreter.(*thread).apply
+//@   opt writes-existing F:bt.Input.PreviousTxSatoshis F:bt.Input.PreviousTxScript
+//@ func interpreter.createThread
+//@   opt writes-existing F:bt.Input.PreviousTxSatoshis F:bt.Input.PreviousTxScript
+//@ func interpreter.(*engine).Execute
+//@   opt writes-existing F:bt.Input.PreviousTxSatoshis F:bt.Input.PreviousTxScript
+// the signature opcodes set the script code on a Clone() of the transaction: proved to be fresh memory
+//@ func interpreter.opcodeCheckSig
+//@   opt frame-keys F:bt.Input.PreviousTxScript
+//@ func interpreter.opcodeCheckMultiSig
+//@   opt frame-keys F:bt.Input.PreviousTxScript
